@@ -25,7 +25,8 @@ RULE = ('case = two or three endpoints (a talks to b and optionally to c) x sche
         'SPI and nobody otherwise; after every event the table has no duplicate (object or SPI), no DELETED entry and the SAD '
         'has no record without a tracked CHILD_SA; after the drain both ends hold the same IKE_SAs; status JSON == table. '
         'Non-trivial = >= 2 IKE_SAs coexisted at some endpoint, or a rewritten header / duplicate rekey or delete message was '
-        'delivered; distinct by the multiset of event classes.')
+        'delivered; distinct by the multiset of event classes. '
+        'An IKE_SA object leaves the table only in state DELETED (table-lost-live-ike-sa otherwise).')
 ASSUMPTIONS = [
     'the third endpoint uses transport mode (protected hosts are the endpoints themselves)',
     'what a correctly routed but unauthentic datagram then does is C03\'s subject; here only the routing decision and the '
